@@ -754,6 +754,152 @@ static void definitionIndependence(int k, int part, int nparts) {
   rec();
 }
 
+// ------------------------------------------------------------------------------------ (f) independence of definition blocks
+// A definition file is usually organised in blocks: a defaults line for a message type (`*r,...`, optionally with default
+// fields that are prepended to every message) followed by the messages of that type.  A block whose messages all follow
+// their own defaults line is independent of the blocks before it ("not on the order in which fields, templates and messages
+// were loaded"): every ordered selection of up to k blocks is concatenated into one file and loaded in its own process; what
+// each block's messages do (definition dump, encode of a probe value, decode of fixed bytes) must equal what they do when
+// their block is the only one in the file.
+struct DefBlock { const char* cls; vector<const char*> lines; vector<const char*> names; const char* circuit; };
+static const vector<DefBlock>& defBlocks() {
+  static const vector<DefBlock> B = {
+    // defaults WITH a default field (prepended to the messages of the block)
+    {"defaults-with-field", {"*r,heat,,,,08,b509,0d,hdr,,UCH", "r,,h1,,,,,01,v,,UCH", "r,,h2,,,,,02,t,,D2C"}, {"h1", "h2"}, "heat"},
+    // defaults WITHOUT default fields for the same type
+    {"defaults-without-field", {"*r,water,,,,15,b509,0e", "r,,w1,,,,,03,v,,UCH"}, {"w1"}, "water"},
+    {"defaults-with-field", {"*w,heat,,,,08,b509,0e,pre,m,UCH", "w,,s1,,,,,04,v,,UCH"}, {"s1"}, "heat"},
+    {"defaults-without-field", {"*w,water,,,,15,b509,0f", "w,,s2,,,,,05,v,,UCH"}, {"s2"}, "water"},
+    // defaults with two default fields, one per part
+    {"defaults-with-field", {"*r,solar,,,,23,b509,10,a,m,UCH,,,,b,s,UCH", "r,,o1,,,,,06,v,,UCH"}, {"o1"}, "solar"},
+    // defaults that only change the circuit and destination
+    {"defaults-without-field", {"*r,pool,,,,50,b510,", "r,,p1,,,,,07,v,,UIN"}, {"p1"}, "pool"},
+    // a block of two types, each following its own defaults line
+    {"defaults-two-types", {"*r,mix,,,,26,b511,", "*w,mix,,,,26,b511,01", "r,,m1,,,,,08,v,,UCH", "w,,m2,,,,,09,v,,UCH"}, {"m1", "m2"}, "mix"},
+    // passive/update type with a default field
+    {"defaults-with-field", {"*u,bc,,,,fe,b516,,kind,,UCH", "u,,t1,,,,,10,v,,UCH"}, {"t1"}, "bc"},
+    {"defaults-without-field", {"*u,bc2,,,,fe,b517,", "u,,t2,,,,,11,v,,UCH"}, {"t2"}, "bc2"},
+  };
+  return B;
+}
+static vector<string> loadBlocksAndObserve(const vector<int>& order) {
+  vector<string> out;
+  errno = 0;
+  DataFieldTemplates* templates = new DataFieldTemplates();
+  MessageMap* map = new MessageMap(false, "", true);
+  PermResolver resolver(templates);
+  map->setResolver(&resolver);
+  string text = "# type,circuit,name,comment,qq,zz,pbsb,id,*name,part,type,divisor/values,unit,comment\n", err;
+  for (int i : order) for (const char* l : defBlocks()[(size_t)i].lines) text += string(l) + "\n";
+  std::istringstream ms(text);
+  result_t lr = map->readFromStream(&ms, "cfg.csv", 0, false, nullptr, &err);
+  for (int i : order) {
+    const DefBlock& b = defBlocks()[(size_t)i];
+    std::ostringstream obs;
+    obs << "load:" << getResultCode(lr) << " " << err << "\n";
+    for (const char* name : b.names) {
+      Message* msg = map->find(b.circuit, name, "", false, false);
+      if (!msg) msg = map->find(b.circuit, name, "", true, false);
+      if (!msg) msg = map->find(b.circuit, name, "", false, true);
+      obs << name << ":";
+      if (!msg) { obs << "missing\n"; continue; }
+      obs << "def:";
+      msg->dump(nullptr, true, OF_DEFINITION, &obs);
+      obs << "\njson:";
+      msg->dump(nullptr, true, OF_JSON | OF_DEFINITION | OF_ALL_ATTRS, &obs);
+      obs << "\n";
+      for (const char* pv : {"5", "5;7", ""}) {
+        MasterSymbolString pm;
+        std::istringstream in(pv);
+        result_t r = msg->prepareMaster(0, 0x31, msg->getDstAddress() == SYN ? 0x08 : SYN, UI_FIELD_SEPARATOR, &in, &pm);
+        obs << "encode '" << pv << "':" << getResultCode(r) << " " << (r == RESULT_OK ? pm.getStr() : string()) << "\n";
+        if (r != RESULT_OK) continue;
+        for (const char* sx : {"022a07", "03010203", "00", "042a070102"}) {
+          SlaveSymbolString sl; sl.parseHex(sx);
+          result_t sr = msg->storeLastData(pm, sl);
+          std::ostringstream d1;
+          result_t dr = sr == RESULT_OK ? msg->decodeLastData(pt_any, false, nullptr, -1, OF_NAMES, &d1) : sr;
+          obs << " decode " << sx << ":" << getResultCode(dr) << " " << d1.str() << "\n";
+        }
+      }
+    }
+    out.push_back(obs.str());
+  }
+  return out;
+}
+static vector<string> observeBlocksForked(const vector<int>& order) {
+  vector<string> res;
+  int fd[2];
+  if (pipe(fd) != 0) return res;
+  fflush(stdout);
+  pid_t pid = fork();
+  if (pid == 0) {
+    close(fd[0]);
+    vector<string> o = loadBlocksAndObserve(order);
+    string all;
+    for (auto& x : o) all += hexs(x) + "\n";
+    size_t off = 0;
+    while (off < all.size()) { ssize_t w = write(fd[1], all.data() + off, all.size() - off); if (w <= 0) break; off += (size_t)w; }
+    _exit(0);
+  }
+  close(fd[1]);
+  string all;
+  char buf[65536];
+  ssize_t nr;
+  while ((nr = read(fd[0], buf, sizeof(buf))) > 0) all.append(buf, (size_t)nr);
+  close(fd[0]);
+  int st = 0;
+  waitpid(pid, &st, 0);
+  std::istringstream is(all);
+  string line;
+  while (std::getline(is, line)) res.push_back(unhexs(line));
+  if (!WIFEXITED(st) || WEXITSTATUS(st) != 0) res.clear();
+  R.transitions++;
+  return res;
+}
+static string blockText(size_t i) { string t; for (const char* l : defBlocks()[i].lines) { if (!t.empty()) t += " | "; t += l; } return t; }
+static void blockIndependence(int k, int part, int nparts) {
+  size_t N = defBlocks().size();
+  vector<string> alone(N);
+  for (size_t i = 0; i < N; i++) {
+    vector<string> o = observeBlocksForked({(int)i});
+    if (o.size() != 1 || o[0].find("load:done") != 0 || o[0].find(":missing") != string::npos) {
+      if (part == 0) R.violation(string("C12/config-rejected/definition-block/") + defBlocks()[i].cls, "valid definition block refused when loaded alone: " + blockText(i) + " -> " + (o.empty() ? string("child failed") : o[0].substr(0, 200)),
+                                 "k=blocks;o=" + std::to_string(i) + ";x=" + std::to_string(i) + ";load=1");
+      continue;
+    }
+    if (part == 0) R.count("definition_blocks_loaded_alone");
+    alone[i] = o[0];
+  }
+  if (part == 0) R.sample("block independence: " + std::to_string(N) + " blocks (defaults line + messages), every ordered selection of <= " + std::to_string(k) + ", e.g. alone " + blockText(0));
+  uint64_t idx = 0;
+  vector<int> cur;
+  std::function<void()> rec = [&]() {
+    if (cur.size() >= 2 && (int)(idx++ % (uint64_t)nparts) == part && !R.expired()) {
+      vector<string> o = observeBlocksForked(cur);
+      R.evaluations++; R.tracesValidated++;
+      R.distinct(vp::fnv("blocks" + orderStr(cur)));
+      R.count("definition_block_selections");
+      for (size_t j = 0; j < cur.size(); j++) {
+        const string& got = j < o.size() ? o[j] : string("child failed");
+        if (got != alone[(size_t)cur[j]]) {
+          // which kind of block precedes it decides the class: that is where a stale default comes from
+          string before = j > 0 ? defBlocks()[(size_t)cur[j - 1]].cls : "first";
+          R.violation(string("C12/load-order/block-depends-on-others/") + defBlocks()[(size_t)cur[j]].cls + "/after-" + before,
+                      "blocks loaded in order [" + orderStr(cur) + "]: " + blockText((size_t)cur[j]) + ": " + firstDiff(alone[(size_t)cur[j]], got),
+                      "k=blocks;o=" + orderStr(cur) + ";x=" + std::to_string(cur[j]));
+        }
+      }
+    }
+    if ((int)cur.size() >= k) return;
+    for (size_t i = 0; i < N; i++) {
+      if (alone[i].empty() || std::find(cur.begin(), cur.end(), (int)i) != cur.end()) continue;
+      cur.push_back((int)i); rec(); cur.pop_back();
+    }
+  };
+  rec();
+}
+
 // ------------------------------------------------------------------------------------ (e) stream state left by other fields
 // Phase 1: every registered type (with divisor / value list variants) decodes every byte pattern of a small byte
 // alphabet in every format on a pristine stream; the formatting state (flags, precision, fill) each decode leaves
@@ -938,6 +1084,25 @@ static int replay(const string& c) {
     printf("attribute: %s\nVIOLATES\n", poisonAttr(f, d, fmt, st, base).c_str());
     return 1;
   }
+  if (m["k"] == "blocks") {
+    vector<int> order;
+    { std::istringstream os(m["o"]); string t; while (std::getline(os, t, '.')) order.push_back(atoi(t.c_str())); }
+    int x = atoi(m["x"].c_str());
+    vector<string> a = observeBlocksForked({x}), o = observeBlocksForked(order);
+    printf("blocks loaded in this order:\n");
+    for (int i : order) printf("  [%d] %s\n", i, blockText((size_t)i).c_str());
+    size_t pos = std::find(order.begin(), order.end(), x) - order.begin();
+    if (a.size() != 1 || pos >= o.size()) { printf("child failed\nVIOLATES\n"); return 1; }
+    if (m["load"] == "1") {
+      bool okl = a[0].find("load:done") == 0 && a[0].find(":missing") == string::npos;
+      printf("loaded alone: %s", a[0].substr(0, a[0].find('\n') + 1).c_str());
+      printf(okl ? "OK\n" : "VIOLATES (valid definition block refused)\n");
+      return okl ? 0 : 1;
+    }
+    if (a[0] == o[pos]) { printf("block %d behaves as when loaded alone\nOK\n", x); return 0; }
+    printf("block %d: %s (first: loaded alone)\nVIOLATES\n", x, firstDiff(a[0], o[pos]).c_str());
+    return 1;
+  }
   if (m["k"] == "lines") {
     vector<int> order;
     { std::istringstream os(m["o"]); string t; while (std::getline(os, t, '.')) order.push_back(atoi(t.c_str())); }
@@ -1109,6 +1274,9 @@ int main(int argc, char** argv) {
 
   // (d) independence of definitions that meet in the derived type cache
   definitionIndependence((int)A.getInt("lines", thorough ? 4 : 3), A.part, A.nparts);
+
+  // (f) independence of definition blocks (defaults line + messages)
+  blockIndependence((int)A.getInt("blocks", thorough ? 4 : 3), A.part, A.nparts);
 
   // (e) formatting state left on the shared stream by other fields
   g_poisonFull2 = thorough;
